@@ -96,6 +96,26 @@ func relabel(scheme string, s hotstuff.QuorumSignature, labels []int) hotstuff.Q
 	panic("unknown signature type")
 }
 
+// retype keeps the signature bytes and the signer labels and changes the signature's scheme (the wire format names the
+// scheme of a signature, so a peer can send the bytes of an ECDSA multi-signature as an EdDSA one and vice versa).
+func retype(s hotstuff.QuorumSignature) (hotstuff.QuorumSignature, bool) {
+	switch m := s.(type) {
+	case crypto.Multi[*crypto.ECDSASignature]:
+		out := make([]*crypto.EDDSASignature, len(m))
+		for i, p := range m {
+			out[i] = crypto.RestoreEDDSASignature(p.ToBytes(), p.Signer())
+		}
+		return crypto.Multi[*crypto.EDDSASignature](out), len(out) > 0
+	case crypto.Multi[*crypto.EDDSASignature]:
+		out := make([]*crypto.ECDSASignature, len(m))
+		for i, p := range m {
+			out[i] = crypto.RestoreECDSASignature(p.ToBytes(), p.Signer())
+		}
+		return crypto.Multi[*crypto.ECDSASignature](out), len(out) > 0
+	}
+	return nil, false
+}
+
 func ctxKey(kind string, parts ...any) string { return kind + ":" + fmt.Sprint(parts...) }
 
 func prop(c c11Case) common.Result {
@@ -275,6 +295,44 @@ func prop(c c11Case) common.Result {
 				}
 			}
 			pool = append(pool, poolSig{ps, perm, p.msgs})
+		case "retyped":
+			// replay of a signature under another scheme's name (same bytes, same labels): first the genuine one, then the
+			// retyped one, for the same message(s)
+			if len(pool) == 0 {
+				continue
+			}
+			p := pick(o.A)
+			rs, ok := retype(p.sig)
+			if !ok {
+				continue
+			}
+			same, first := true, -1
+			for _, m := range p.msgs {
+				if first >= 0 && m != first {
+					same = false
+				}
+				first = m
+			}
+			batch := map[hotstuff.ID][]byte{}
+			for sg, m := range p.msgs {
+				batch[hotstuff.ID(sg)] = msgOf(m)
+			}
+			for round, sg := range []hotstuff.QuorumSignature{p.sig, rs} {
+				var ok1, p1, ok2, p2 bool
+				var m1, m2 string
+				if same && o.C%2 == 0 {
+					ok1, p1, m1 = call(func() error { return cached.Verify(sg, msgOf(first)) })
+					ok2, p2, m2 = call(func() error { return plain.Verify(sg, msgOf(first)) })
+				} else {
+					ok1, p1, m1 = call(func() error { return cached.BatchVerify(sg, batch) })
+					ok2, p2, m2 = call(func() error { return plain.BatchVerify(sg, batch) })
+				}
+				note(sg, ctxKey("retyped", round, p.msgs, labelsOf(sg)), ok2)
+				if ok1 != ok2 || p1 != p2 {
+					return common.Fail("retyped-"+fpSide(ok1), "signature really signed per signer %v, labels %v, presented as %T (round %d; the genuine one is %T): cached accepted=%v panicked=%v (%s), uncached accepted=%v panicked=%v (%s)\n%s",
+						p.msgs, labelsOf(sg), sg, round, p.sig, ok1, p1, m1, ok2, p2, m2, step)
+				}
+			}
 		case "signshaped":
 			// a replica signs a message that is shaped like a one-entry batch of its own
 			who := 1 + ((o.A%c.N)+c.N)%c.N
@@ -485,7 +543,7 @@ func genCase(rt *rapid.T) c11Case {
 	}
 	c.Cap = rapid.SampledFrom([]int{1, 2, 3, 4, 5, 6, 7, 8, 100}).Draw(rt, "cap")
 	c.Verifier = rapid.IntRange(1, c.N).Draw(rt, "verifier")
-	kinds := []string{"sign", "sign", "signbatch", "combine", "relabel", "verify", "verify", "verify", "batch", "batch", "mkqc", "mktc", "mkagg", "vcert", "vcert", "vcert", "signshaped", "verifyshaped", "verifyshaped", "nilsig", "permuted", "permuted"}
+	kinds := []string{"sign", "sign", "signbatch", "combine", "relabel", "verify", "verify", "verify", "batch", "batch", "mkqc", "mktc", "mkagg", "vcert", "vcert", "vcert", "signshaped", "verifyshaped", "verifyshaped", "nilsig", "permuted", "permuted", "retyped"}
 	maxOps := 60
 	if c.Scheme == "bls12" {
 		maxOps = 25
